@@ -22,6 +22,7 @@ import (
 	"verif/sim/simkit"
 	"verif/sim/simrt"
 	"verif/sim/simsync"
+	"verif/sim/simtime"
 )
 
 func TestMain(m *testing.M) {
@@ -47,6 +48,7 @@ type callPlan struct {
 	from, to  int
 	latencyMs int
 	cancelMs  int // -1: never
+	startMs   int // the call is made this long after the start of the run (requests carry whole-second timestamps)
 	// cancelOnReply: the caller gives up at the very instant the (first) response reaches its node - the response
 	// and the cancellation race inside the requester
 	cancelOnReply bool
@@ -99,6 +101,9 @@ func runC17(t *rapid.T) {
 			p.latencyMs = int(timeout/time.Millisecond) + simkit.Int(t, "hedge", -60, 60)
 		default:
 			p.latencyMs = simkit.Int(t, "hlong", 3000, 4500)
+		}
+		if simkit.Bool(t, "latestart") {
+			p.startMs = simkit.Int(t, "startms", 1, 2500)
 		}
 		if simkit.Chance(t, "cancel", 1, 5) {
 			p.cancelMs = simkit.Int(t, "cancelms", 0, 7000)
@@ -208,6 +213,9 @@ func runC17(t *rapid.T) {
 		k.Go(fmt.Sprintf("call%d", i), nodes[p.from].name, func() {
 			cctx, cancel := context.WithCancel(ctx)
 			defer cancel()
+			if p.startMs > 0 {
+				simtime.Sleep(time.Duration(p.startMs) * time.Millisecond)
+			}
 			if p.cancelMs >= 0 {
 				simrt.C.AfterFunc(time.Duration(p.cancelMs)*time.Millisecond, 0, cancel)
 			}
@@ -292,7 +300,7 @@ func runC17(t *rapid.T) {
 		// return happens) while the call was not cancelled must end the call successfully
 		cancelAt := time.Duration(1 << 62)
 		if c.CancelMs >= 0 {
-			cancelAt = time.Duration(c.CancelMs) * time.Millisecond
+			cancelAt = c.invoked + time.Duration(c.CancelMs)*time.Millisecond
 		}
 		if c.cancelled >= 0 {
 			cancelAt = c.cancelled
